@@ -1,6 +1,7 @@
 package main
 
 import (
+	"encoding/json"
 	"fmt"
 	"sort"
 	"strconv"
@@ -32,6 +33,7 @@ var c13Forms = []string{"snps", "variants-gb", "variants-gff", "samvariants"}
 func genC13(r *Rand, tier string, ord int) *Trial {
 	form := c13Forms[ord%len(c13Forms)]
 	var c *Case
+	annoJSON := ""
 	switch form {
 	case "snps":
 		w := r.Range(1, 16)
@@ -69,6 +71,8 @@ func genC13(r *Rand, tier string, ord int) *Trial {
 		}
 		c.Opts.Start, c.Opts.End = -1, -1
 		c.Opts.AppendSNP = r.P(0.4)
+		ab, _ := json.Marshal(an)
+		annoJSON = string(ab)
 	case "samvariants":
 		c = genCmdCase(r, "samvariants", caseSize{})
 		c.Opts.Aggregate = false
@@ -77,6 +81,9 @@ func genC13(r *Rand, tier string, ord int) *Trial {
 	c.Opts.Threads = 1
 	c.Opts.Threshold = 0
 	t := &Trial{Kind: form, Case: *c, Params: map[string]string{"thr_mode": strconv.Itoa(r.Intn(5)), "thr_u": strconv.FormatFloat(r.Float(), 'g', -1, 64)}}
+	if annoJSON != "" {
+		t.Params["anno"] = annoJSON // the feature table, so that aa: rows can be placed on the genome too
+	}
 	n := 4
 	if tier == "thorough" {
 		n = 10
@@ -205,10 +212,36 @@ func checkC13(t *Trial, ctx *Ctx) *Failure {
 		if strings.Join(got, "\n") != strings.Join(want, "\n") {
 			return fail("frequencies-differ", fmt.Sprintf("expected (sorted):\n%s\ngot (sorted):\n%s", strings.Join(want, "\n"), strings.Join(got, "\n")))
 		}
+		var an Anno
+		hasAnno := t.Params["anno"] != ""
+		if hasAnno {
+			json.Unmarshal([]byte(t.Params["anno"]), &an)
+		}
 		last := -1
 		for _, l := range al[1:] {
 			m := l[:strings.LastIndexByte(l, ',')]
-			if p, ok := mutPos(m); ok {
+			p, ok := mutPos(m)
+			if !ok && hasAnno {
+				// an aa: row may be placed at any coordinate of its codon (the statement says "genomic position",
+				// not which base of the codon): it only has to fit between its neighbours
+				if a, okA := aaPos(m, an); okA {
+					lo, hi := a, a
+					if b := a + 2*featStrand(m, an); b < lo {
+						lo = b
+					} else if b > hi {
+						hi = b
+					}
+					ctx.Probe("aa_row_position_checked", 1)
+					if hi < last {
+						return fail("not-ordered-by-position", "row "+l+" (codon at "+strconv.Itoa(lo)+".."+strconv.Itoa(hi)+") follows a row at position "+strconv.Itoa(last))
+					}
+					if lo > last {
+						last = lo
+					}
+				}
+				continue
+			}
+			if ok {
 				if p < last {
 					return fail("not-ordered-by-position", "row "+l+" follows a row at position "+strconv.Itoa(last))
 				}
@@ -217,4 +250,18 @@ func checkC13(t *Trial, ctx *Ctx) *Failure {
 		}
 	}
 	return nil
+}
+
+// featStrand is the strand (+1/-1) of the feature an aa: record names (0 if unknown).
+func featStrand(m string, an Anno) int {
+	f := strings.SplitN(m, ":", 3)
+	if len(f) != 3 {
+		return 0
+	}
+	for _, ft := range an.Feats {
+		if ft.Name == f[1] || (ft.Name == "" && "u"+ft.ID == f[1]) {
+			return ft.Strand
+		}
+	}
+	return 0
 }
